@@ -21,6 +21,12 @@ CHECKS = {
     "C19": dict(level="proof", technique="initialisation-order classification of every namespace-scope variable per [basic.start.dynamic] + who-reads walk over all instantiated bodies; known-findings file for the triaged defect",
                 text="Every PhQ namespace-scope variable is classified constant / partially-ordered / ordered / unordered; any library function reading an unordered one is reported. On the pinned tree this reports the conversion dispatch tables (genuine defect, replayed: crash before main with g++), recorded as two known findings; every other table family is proved ordered before user objects.",
                 note="trusted: clang's TemplateSpecializationKind/isInline/hasConstantInitialization; the C++17 standard's ordering rules", ref="3/C19, 4.3"),
+    "C06": dict(level="proof", technique="unit-symbol grammar -> exponent vectors vs RelatedDimensions initialisers; term evaluation of Dimensions(); case-complete evaluation of the Print decision trees; 3^7 ordering enumeration",
+                text="Obligations: 514 unit symbols, every quantity class x 3 numeric types, 7+1 print routines (4 exponent classes each; all 128 emptiness patterns), 6 operators x 3^7 slot-relation assignments, the hash read-set. All discharged exactly.",
+                note="trusted: clang front end, oracle/units.py dimension table, std::string/to_string models in the evaluator", ref="3/C06"),
+    "C14": dict(level="proof", technique="term evaluation of each comparison operator to a boolean formula over same-slot comparisons + exhaustive 3^n slot-relation enumeration against the lexicographic specification; hash read-set/shape analysis",
+                text="For every quantity, tensor, Dimensions, Dimension and model type and every numeric type: six operators exist and each equals the lexicographic order on all 3^n abstract cases (complete on non-NaN values because only same-slot comparisons occur, which the check enforces); every std::hash reads the value only through std::hash of its components.",
+                note="trusted: clang front end; libstdc++ std::hash<floating> contract (+0/-0 hash equally)", ref="3/C14"),
 }
 
 NOT_YET = {
